@@ -1089,18 +1089,30 @@ qh::GenOptions genOptionsFor(const std::string& property, sim::Rng& knob) {
 bool g_simLogOn = true;
 std::string simClass(const std::vector<SimOp>& ops, const std::string& property, std::string& detail, SimStats& st) {
     std::vector<Finding> f;
+    uint64_t copyDraws = bloch::verif::g_drawsFromCopy;
     runSimHistory(ops, property, f, st, g_simLogOn);
     for (auto& x : f)
         if (owns(property, x.owner, x.cls)) { detail = x.detail; return x.cls; }
+    // a draw taken from a copy of the generator leaves the shared generator where it was: with the shipped engine the
+    // next draw repeats the same number, so outcomes that must be independent are correlated (C02 and C04 both rest on it)
+    if ((property == "C02" || property == "C04") && bloch::verif::g_drawsFromCopy != copyDraws) {
+        detail = std::to_string(bloch::verif::g_drawsFromCopy - copyDraws) + " word(s) were drawn from a copy of the measurement generator";
+        return "draw_taken_from_copy_of_generator";
+    }
     return "";
 }
 std::string progClass(const qh::Plan& p, const std::string& property, uint64_t seed, uint64_t run, std::string& detail, ProgOutcome* outp = nullptr) {
+    uint64_t copyDraws = bloch::verif::g_drawsFromCopy;
     ProgOutcome o = runProgram(p, property, seed, run, nullptr);
     if (outp) *outp = o;
     if (o.status == 9) { detail = "rejected: " + o.message; return "harness_rejected"; }
     qh::Finding first;
     std::string c = ownerOf(o.findings, property, first);
     if (!c.empty()) detail = first.detail;
+    if (c.empty() && (property == "C02" || property == "C04") && bloch::verif::g_drawsFromCopy != copyDraws) {
+        detail = std::to_string(bloch::verif::g_drawsFromCopy - copyDraws) + " word(s) were drawn from a copy of the measurement generator";
+        return "draw_taken_from_copy_of_generator";
+    }
     return c;
 }
 
